@@ -273,6 +273,9 @@ class Ctx:
 		self.notes: list[str] = []
 		self.module = None
 		self.tie_broken: list[str] = []
+		# cases on which the model (or the definitions generated from the current source) and the implementation differ while every
+		# verdict of the statement's own predicate on that case was `ok`: a broken correspondence, not a failing input (DESIGN §2.4 rule 2)
+		self.diffs: list[dict] = []
 
 	# -- time --------------------------------------------------------------------------------
 	def elapsed(self) -> float:
@@ -344,9 +347,14 @@ class Ctx:
 			for l, r in bad:
 				if r.startswith('bad-op'):
 					raise BrokenCheck(f'driver rejected request {l[:200]!r}: {r}')
-			if bad or pyfails:
+			fails = [(l, r) for l, r in bad if not r.startswith('DIFF ')]
+			if fails or pyfails:
 				self.failures.append({'case': case, 'bad': [{'request': l, 'reply': r} for l, r in bad],
 				                      'pyfails': list(pyfails)})
+			elif bad:
+				if len(self.diffs) < 50:
+					self.diffs.append({'case': case, 'bad': [{'request': l, 'reply': r} for l, r in bad]})
+				self.ndiffs = getattr(self, 'ndiffs', 0) + 1
 		self.pending = []
 		self.pending_lines = 0
 
